@@ -12,6 +12,7 @@ CONSTANTS
   Horizon = 0
   AllowFaults = FALSE
   AllowCancel = TRUE
+  AllowStall = FALSE
   AbstractTime = TRUE
   LeakSearchIdOnDone = FALSE
   AbandonKeepsTargetId = FALSE
